@@ -19,6 +19,14 @@ CLAIMED = {
    technique="stateless model checking of the real code: deviation-bounded DFS over interleavings of {last commit, writer drop} with {wait returns / times out, eof() check, re-read}, for sample and packet streams",
    text="For every small combination of backlog, final commits and `need`, all interleavings with at most d deviations of a writer that commits and goes away against a reader that waits / polls eof (and the mirrored writer-waits case, and packet streams) are run on the real stream code; safety (never told 'never' with enough data or a live peer; nothing lost) and bounded liveness (told within one extra wait) are checked in every execution.",
    note="Trusted: as C03. Timeouts are scheduler choices: early (cost 1) or when nothing else can run (free).", ref="DESIGN.md 3-E2, 5-C04"),
+ "C05": dict(level="model_checking", engine="mt",
+   technique="stateless model checking of the real MTGraph runner: deviation-bounded DFS over thread interleavings and timeout firings of small generated graphs (chains, tee, rate changers) over capacity-1/2 streams, all/several add orders, against a pure reference result",
+   text="Each generated graph (source of length 0..2cap+1, one library or harness stage, sink; tee to two sinks; 1- and 2-page streams; several/all add orders) is run on the real MTGraph::run under the controlled scheduler; every execution with at most d deviations must terminate (no deadlock, livelock or step-horizon) and leave every sink equal to the reference result computed by executable specifications.",
+   note="Trusted: as C03, plus the executable specifications of the menu blocks (vcommon::specs). Graphs with more than 4 block threads and long sources are out of reach of exhaustive interleaving search.", ref="DESIGN.md 3-E2, 5-C05"),
+ "C07": dict(level="model_checking", engine="mt",
+   technique="stateless model checking of both runners: deviation-bounded DFS with a canceller task whose cancel() lands between any two scheduling points, and a fault-injecting block failing on its k-th call at every position of a 3-chain",
+   text="For infinite and finite sources on Graph and MTGraph: every placement (up to d deviations) of cancel() must make run() return Ok with all threads joined and at most 2 further work() calls per block; a block failing on call k (k=1..3) at each of 3 positions must make run() return exactly that error - not panic, hang or Ok.",
+   note="Trusted: as C03; the Instrumented wrapper block that counts calls and injects failures.", ref="DESIGN.md 3-E2, 5-C07"),
 }
 
 ENGINES = [
